@@ -253,6 +253,14 @@ theorem new_defaults :
 theorem new_fails_iff (opts : List Opt) : Rot.new opts = none ↔ Opt.path "" ∈ opts :=
   new_foldl_none_iff opts defaults
 
+/-- `MaxSize(n)`/`MaxBackups(n)` with a negative `n` (the API takes signed integers): the size test with a non-empty
+    file and the `maxBackups < 1` test give the same answers as for the clamped value 0, which is what the driver
+    configures the model with (`Rot.clampLimit`) -/
+theorem negative_limits_act_as_zero (m : Int) (size n : Nat) (hs : 0 < size) :
+    (((size : Int) + (n : Int) > m) ↔ size + n > clampLimit m) ∧ ((m < 1) ↔ clampLimit m < 1) := by
+  unfold clampLimit
+  constructor <;> omega
+
 /-! ## the interpreter's representation -/
 
 /-- the driver keeps the directory as an array of `n` entries between steps; this loses nothing below `n` (and the
